@@ -44,9 +44,9 @@ def _track(label, err, tol, rtol):
         WORST[label] = max(WORST.get(label, 0.0), w)
 
 
-def cmp_mean(ma, mb, sd, rtol=RTOL, label=None):
+def cmp_mean(ma, mb, sd, rtol=RTOL, label=None, extra=0.0):
     mag = max(1.0, float(np.max(np.abs(ma))))
-    tol = rtol * (np.abs(ma) + sd) + 1e-13 * mag
+    tol = rtol * (np.abs(ma) + sd) + 1e-13 * mag + extra
     err = np.abs(ma - mb)
     _track(label, err, tol, rtol)
     bad = ~(err <= tol)
@@ -57,7 +57,9 @@ def cmp_mean(ma, mb, sd, rtol=RTOL, label=None):
 
 
 def cmp_cov(ca, cb, sd, rtol=RTOL, label=None):
-    tol = rtol * (sd[:, :, None] * sd[:, None, :] + np.abs(ca)) + 1e-300
+    # entries involving an exactly determined coordinate (zero variance) carry rounding noise eps * smax * sd_j
+    noise = 1e-14 * sd.max(axis=1)[:, None, None] * np.maximum(sd[:, :, None], sd[:, None, :])
+    tol = rtol * (sd[:, :, None] * sd[:, None, :] + np.abs(ca)) + noise
     err = np.abs(ca - cb)
     _track(label, err, tol, rtol)
     bad = ~(err <= tol)
@@ -67,12 +69,42 @@ def cmp_cov(ca, cb, sd, rtol=RTOL, label=None):
     return None
 
 
+def perturb(r):
+    """twin of a run: initial Taylor coefficients + 2^-48, first step size * (1 + 2^-48).  The difference between
+    a run and its twin measures how strongly the adaptive solve amplifies rounding-size perturbations."""
+    e = Fr(1, 2 ** 48)
+    r["tcoeffs"] = [[x + e for x in row] for row in r["tcoeffs"]]
+    r["adaptive"] = dict(r["adaptive"], dt0=float(r["adaptive"]["dt0"]) * (1 + 2.0 ** -48))
+    return r
+
+
+def noise_of(ra, rt, sd, d):
+    """(per-entry mean noise (N,), relative covariance noise, relative scale noise) between a run and its twin"""
+    if "error" in rt or rt["num_steps"] != ra["num_steps"] or not finite(rt):
+        # the twin takes a different number of steps: the run sits on a step-acceptance boundary
+        big = np.full(np.asarray(ra["mean"]).shape[1], np.inf)
+        return big, np.inf, np.inf
+    ma, Pa, sa = arrs(ra)
+    mt, Pt, st = arrs(rt)
+    nm = np.max(np.abs(ma - mt), axis=0)                      # per state entry, max over time
+    # all dimensions of one Taylor coefficient share their scale
+    nm = np.repeat(nm.reshape(-1, d).max(axis=1), d)
+    nc = float(np.max(np.abs(Pa - Pt) / (sd[:, :, None] * sd[:, None, :] + np.abs(Pa) + 1e-300)))
+    ns = float(np.max(np.abs(sa - st) / (np.abs(sa) + sfloor(sa, st))))
+    return nm, nc, ns
+
+
 def finite(r):
     return bool(np.all(np.isfinite(r["mean"])) and np.all(np.isfinite(r["cov"])) and np.all(np.isfinite(np.asarray(r["output_scale"], dtype=float))))
 
 
 def arrs(r):
     return np.asarray(r["mean"], dtype=float), np.asarray(r["cov"], dtype=float), np.asarray(r["output_scale"], dtype=float)
+
+
+def sfloor(*xs):
+    """output scales that are pure rounding noise (a dimension solved exactly) are compared absolutely"""
+    return 1e-11 * max([float(np.max(np.abs(x))) for x in xs if np.size(x)] + [0.0]) + 1e-13
 
 
 # ------------------------------------------------------------------ problem generators
@@ -225,11 +257,9 @@ def ts0_three(ck, n):
             for kind in ("dense", "iso", "blockdiag"):
                 r = as_kind(c, kind)
                 r["calib"] = cal
-                r["group"] = g
                 runs.append(r)
         probs.append(c)
-    res = run(ck, runs)
-    stats = {"max_rel_dense_iso": 0.0}
+    res = yield runs
     for g, c in enumerate(probs):
         jc = gen.jsonable(c)
         for ci, cal in enumerate(CALIBS):
@@ -258,7 +288,7 @@ def ts0_three(ck, n):
             p = cmp_cov(Pd, Pi, sd, label="ts0 dense-iso cov")
             if p:
                 ck.report(f"C14.dense-iso.{cal}.cov", f"{describe(cc)}: {p}", rep)
-            if sd_.shape != si.shape or not np.all(np.abs(sd_ - si) <= 1e-8 * np.abs(sd_) + 1e-300):
+            if sd_.shape != si.shape or not np.all(np.abs(sd_ - si) <= 1e-8 * np.abs(sd_) + sfloor(sd_, si)):
                 ck.report(f"C14.dense-iso.{cal}.scale", f"{describe(cc)}: output scales {sd_.ravel().tolist()} vs {si.ravel().tolist()}", rep)
             if rd["num_steps"] != ri["num_steps"]:
                 ck.report(f"C14.dense-iso.{cal}.num_steps", f"{describe(cc)}: {rd['num_steps']} vs {ri['num_steps']}", rep)
@@ -274,7 +304,7 @@ def ts0_three(ck, n):
             if cal == "mle":
                 lhs = sd_[:, 0] ** 2
                 rhs = np.mean(sb ** 2, axis=1)
-                if not np.all(np.abs(lhs - rhs) <= 1e-8 * np.abs(lhs) + 1e-300):
+                if not np.all(np.abs(lhs - rhs) <= 1e-8 * np.abs(lhs) + sfloor(sd_, sb) ** 2):
                     ck.report(f"C14.dense-blockdiag.{cal}.scale", f"{describe(cc)}: dense scale^2 {lhs.tolist()} vs mean of block-diagonal scale_a^2 {rhs.tolist()}", rep)
                 # the calibrated block-diagonal covariance is the uncalibrated one times its own scale:
                 # block a of blockdiag / scale_a^2 == block a of dense / dense_scale^2
@@ -288,7 +318,6 @@ def ts0_three(ck, n):
                     p = cmp_cov(Pd, Pb_n, sd, rtol=1e-7, label="ts0 dense-blockdiag cov rescaled (mle)")
                     if p:
                         ck.report(f"C14.dense-blockdiag.{cal}.cov-rescaled", f"{describe(cc)}: {p}", rep)
-    return stats
 
 
 def ts1_decoupled(ck, n):
@@ -298,15 +327,13 @@ def ts1_decoupled(ck, n):
         start = len(runs)
         r = copy.deepcopy(c)
         r.pop("local_f")
-        r["group"] = g
         runs.append(r)
         for a in range(c["d"]):
             s = scalar_of(c, a)
-            s["group"] = g
             runs.append(s)
         probs.append(c)
         index.append(start)
-    res = run(ck, runs)
+    res = yield runs
     for c, start in zip(probs, index):
         jc = gen.jsonable(c)
         d, n1 = c["d"], c["q"] + 1
@@ -336,7 +363,7 @@ def ts1_decoupled(ck, n):
             p = cmp_cov(Ps, Pb[:, a::d, a::d], sd, label="ts1 blockdiag-scalar cov")
             if p:
                 ck.report(f"C14.blockdiag-scalar.{mode}.cov", f"{describe(c)} dimension {a}: scalar dense vs block: {p}", rep)
-            if not np.all(np.abs(ss[:, 0] - sb[:, a]) <= 1e-8 * np.abs(ss[:, 0]) + 1e-300):
+            if not np.all(np.abs(ss[:, 0] - sb[:, a]) <= 1e-8 * np.abs(ss[:, 0]) + sfloor(sb, ss)):
                 ck.report(f"C14.blockdiag-scalar.{mode}.scale", f"{describe(c)} dimension {a}: scalar scale {ss[:, 0].tolist()} vs block scale {sb[:, a].tolist()}", rep)
         # off-diagonal blocks of the dense layout are zero by construction of the conversion; nothing to compare
 
@@ -348,10 +375,9 @@ def ts1_scalar_jacobian(ck, n):
         for kind in ("dense", "iso"):
             r = as_kind(c, kind)
             r.pop("jac")
-            r["group"] = g
             runs.append(r)
         probs.append(c)
-    res = run(ck, runs)
+    res = yield runs
     for g, c in enumerate(probs):
         jc = gen.jsonable(c)
         cal = c["calib"]
@@ -375,7 +401,7 @@ def ts1_scalar_jacobian(ck, n):
         p = cmp_cov(Pd, Pi, sd, label="ts1 dense-iso cov")
         if p:
             ck.report(f"C14.dense-iso.{mode}.cov", f"{describe(c)} [{c['jac']}]: {p}", rep)
-        if sd_.shape != si.shape or not np.all(np.abs(sd_ - si) <= 1e-8 * np.abs(sd_) + 1e-300):
+        if sd_.shape != si.shape or not np.all(np.abs(sd_ - si) <= 1e-8 * np.abs(sd_) + sfloor(sd_, si)):
             ck.report(f"C14.dense-iso.{mode}.scale", f"{describe(c)}: output scales {sd_.ravel().tolist()} vs {si.ravel().tolist()}", rep)
 
 
@@ -402,18 +428,19 @@ def adaptive_pair(ck, n):
         c["adaptive"] = {"mode": "save_at", "save_at": [t0, t0 + Fr(1, 4), t0 + Fr(1, 2), t0 + Fr(1)], "atol": 0.1 * tol, "rtol": tol,
                          "dt0": float(Fr(1, ck.rng.choice([8, 32]))), "clip": ck.rng.random() < 0.5,
                          "control": ck.rng.choice([None, "i", "pi"])}
-        for kind in ("dense", "iso"):
-            r = as_kind(c, kind)
+        for kind in ("dense", "iso", "twin"):
+            r = as_kind(c, "dense" if kind == "twin" else kind)
             r.pop("jac")
-            r["group"] = g
+            if kind == "twin":
+                perturb(r)
             runs.append(r)
         probs.append(c)
-    res = run(ck, runs)
+    res = yield runs
     for g, c in enumerate(probs):
         jc = gen.jsonable(c)
         cal = c["calib"]
         mode = f"adaptive-{c['lin']}-{cal}"
-        rd, ri = res[2 * g], res[2 * g + 1]
+        rd, ri, rt = res[3 * g], res[3 * g + 1], res[3 * g + 2]
         steps = rd.get("num_steps")
         total = int(np.sum(steps)) if steps is not None and "error" not in rd else -1
         ck.count("ad:" + json.dumps(jc, sort_keys=True), nontrivial=total > 3,
@@ -431,13 +458,19 @@ def adaptive_pair(ck, n):
             continue
         (md, Pd, sd_), (mi, Pi, si) = arrs(rd), arrs(ri)
         sd = sd_of(Pd)
-        p = cmp_mean(md, mi, sd, rtol=1e-8, label="adaptive dense-iso mean")
+        # conditioning of this adaptive run: the same dense solve with inputs perturbed by 2^-48 (see perturb)
+        nm, nc, ns = noise_of(rd, rt, sd, c["d"])
+        ck.hist.setdefault("adaptive_noise_amplification(twin/2^-48)", {})
+        key = "<1e3" if max(nm.max(), nc) < 1e3 * 2.0 ** -48 else "<1e6" if max(nm.max(), nc) < 1e6 * 2.0 ** -48 else ">=1e6"
+        ck.hist["adaptive_noise_amplification(twin/2^-48)"][key] = ck.hist["adaptive_noise_amplification(twin/2^-48)"].get(key, 0) + 1
+        K = 50.0
+        p = cmp_mean(md, mi, sd, rtol=1e-9, label="adaptive dense-iso mean (beyond 50x twin noise)", extra=K * nm[None, :])
         if p:
-            ck.report(f"C14.dense-iso.{mode}.mean", f"{describe(c)}: {p}", rep)
-        p = cmp_cov(Pd, Pi, sd, rtol=1e-8, label="adaptive dense-iso cov")
+            ck.report(f"C14.dense-iso.{mode}.mean", f"{describe(c)}: {p} [twin noise {nm.max():.2e}]", rep)
+        p = cmp_cov(Pd, Pi, sd, rtol=1e-9 + K * nc, label="adaptive dense-iso cov (beyond 50x twin noise)")
         if p:
-            ck.report(f"C14.dense-iso.{mode}.cov", f"{describe(c)}: {p}", rep)
-        if sd_.shape != si.shape or not np.all(np.abs(sd_ - si) <= 1e-7 * np.abs(sd_) + 1e-300):
+            ck.report(f"C14.dense-iso.{mode}.cov", f"{describe(c)}: {p} [twin noise {nc:.2e}]", rep)
+        if sd_.shape != si.shape or not np.all(np.abs(sd_ - si) <= (1e-8 + K * ns) * np.abs(sd_) + sfloor(sd_, si)):
             ck.report(f"C14.dense-iso.{mode}.scale", f"{describe(c)}: output scales {sd_.ravel().tolist()} vs {si.ravel().tolist()}", rep)
 
 
@@ -445,10 +478,17 @@ def main():
     ck = lib.Check("C14")
     pr = ck.run_proof()
     quick = ck.tier == "quick"
-    ts0_three(ck, 12 if quick else 150)
-    ts1_decoupled(ck, 14 if quick else 150)
-    ts1_scalar_jacobian(ck, 14 if quick else 150)
-    adaptive_pair(ck, 12 if quick else 100)
+    phases = [ts0_three(ck, 12 if quick else 150), ts1_decoupled(ck, 14 if quick else 150),
+              ts1_scalar_jacobian(ck, 14 if quick else 150), adaptive_pair(ck, 12 if quick else 100)]
+    batches = [next(ph) for ph in phases]            # every phase first yields its runs ...
+    res = run(ck, [r for b in batches for r in b])    # ... all runs are dispatched together ...
+    k = 0
+    for ph, b in zip(phases, batches):               # ... and every phase then evaluates its slice
+        try:
+            ph.send(res[k:k + len(b)])
+        except StopIteration:
+            pass
+        k += len(b)
     ck.hist["worst_relative_difference"] = {k: f"{v:.2e}" for k, v in WORST.items()}
     if not pr["ok"] and not ck.violations:
         ck.report("C14.proof", f"proof obligations no longer check: {pr['errors']}",
